@@ -1,6 +1,7 @@
 import MW.Proto.Msgs
 import MW.Proto.Schema
 import MW.Staking.Effects
+import MW.Staking.Interface
 /-!
 # C19 — Token-factory messages are correct for the target chain in both build variants
 
@@ -229,5 +230,15 @@ theorem repo_schema_matches_chain :
 
 /-- non-vacuity: a concrete mint in the miniwasm build -/
 example : (encodeMsg .miniwasm (.mint "c" "factory/c/stTIA" 500 "c")).map (·.1) = some "/miniwasm.tokenfactory.v1.MsgMint" := rfl
+
+/-- the statements of this file quantify over every message the staking contract accepts: the `ExecuteMsg` the source
+declares (table regenerated from /repo's `msg.rs` on every run) has exactly the variants, fields and types of the
+model's `ExecMsg`, and the contract exports exactly the modelled entry points.  A message or entry point added to the
+source — which no generated history would exercise — breaks this theorem -/
+theorem messages_are_the_modelled_ones :
+    MW.Generated.Interface.staking_execute = MW.Interface.model_staking_execute
+    ∧ (∀ m : MW.Staking.ExecMsg, MW.Interface.execTag m ∈ MW.Interface.names MW.Generated.Interface.staking_execute)
+    ∧ MW.Generated.Interface.staking_entry_points = ["execute", "instantiate", "migrate", "query", "reply", "sudo"] :=
+  ⟨MW.Interface.staking_execute_eq, MW.Interface.staking_execute_covered.2, MW.Interface.staking_entry_points_eq⟩
 
 end MW.Props.C19
